@@ -5,3 +5,15 @@ package state
 //@ func State12.InitCipherSuite
 //@ noinline
 //@ end
+
+//@ func Common.CommitNegotiatedExtensions
+//@ noinline
+//@ end
+
+//@ func Common.ResetConnectionIDs
+//@ noinline
+//@ end
+
+//@ func State12.SetRemoteServerKeyExchange
+//@ noinline
+//@ end
